@@ -34,7 +34,7 @@ theorem simplify_preserves_denotation (P : K → Prop) (laws : RPowLaws (RPow.rp
 theorem multiply_rule_in_sync (P : K → Prop) (laws : RPowLaws (RPow.rpow (K := K)) P)
     (hP0 : ∀ x, P x → x ≠ 0) (pre : Prefixes K) (t : Lut K) (u0 u1 ur : UnitV K) (m : K)
     (g0 : Good P pre t u0) (g1 : Good P pre t u1) (h : multiplyUnits pre t u0 u1 = .ok (m, ur)) :
-    P m ∧ C02.InSync pre t ur ∧ ur.expr.coeff = 1 :=
+    P m ∧ InSync pre t ur ∧ ur.expr.coeff = 1 :=
   let ⟨a, b⟩ := good_multiplyUnits P laws hP0 pre t u0 u1 ur m g0 g1 h
   ⟨a, b.sync, by
     simp only [multiplyUnits] at h
